@@ -494,12 +494,6 @@ Proof.
     apply andb_true_iff in K. destruct K as [K1 K2]. apply in_map_iff. exists x. split; [unfold gk; f_equal; lia | exact Hin].
 Qed.
 
-Lemma anc_ids_self_row s b g rows : In g (anc_ids (s <| ancestors ::= fun l => l ++ rows ++ [(b, g, g, 0)] |>) b g).
-Proof.
-  unfold anc_ids, anc_rows. scbn. rewrite !filter_app, !map_app. apply in_or_app. right. apply in_or_app. right.
-  cbn [filter]. rewrite !Z.eqb_refl. cbn. left. reflexivity.
-Qed.
-
 Lemma create_group_rows_inv s b g upd p root :
   tree_inv s -> b < next_batch s -> tree_inv (create_group_rows s b g upd p root).
 Proof.
